@@ -59,6 +59,7 @@ def _deco(seed, i, rot, heavy):
             ("link", f"20{20 + i}"),  # a page whose name is made of digits is still a page
             # dates that are the value of a property / the target of a link, AFTER the header's own date
             ("prop", f"d{i}", "2019-09-%02d" % (i + 1)), ("link", "2018-08-%02d" % (i + 1)),
+            ("emb", "2017-07-%02d" % (i + 1)), ("tag", "#", "2016-06-%02d" % (i + 1)),
             # a one-letter target; `[^X]` (a ticked local checklist link) is the only link zorg ignores
             [("rlink", "X"), ("link", "X"), ("glink", "X"), ("link", "x")][i % 4],
         ]
